@@ -19,7 +19,18 @@ from pathlib import Path
 import os
 
 REPO = Path(os.environ.get("VERIF_REPO", "/repo"))
-GEN = Path(__file__).resolve().parent.parent / "coq" / "theories" / "Gen"
+def _coq_root() -> Path:
+    """the Coq tree this run builds in: /verif/coq for /repo itself; a PRIVATE copy under .work for a scratch worktree (VERIF_REPO), so that
+    checks of different source trees running at the same time never share Gen/*.v and compiled files (harness/common.py, same rule)"""
+    import hashlib
+
+    verif = Path(__file__).resolve().parent.parent
+    if str(REPO) == "/repo":
+        return verif / "coq"
+    return verif / ".work" / ("coq-" + hashlib.sha1(str(REPO).encode()).hexdigest()[:10])
+
+
+GEN = _coq_root() / "theories" / "Gen"
 SRC = REPO / "packages/geff/src/geff"
 SPEC = REPO / "packages/geff-spec/src/geff_spec"
 
